@@ -294,8 +294,10 @@ def finish(ctx, level, coverage_extra, assumptions, replay_fn=None, exhaustive=F
         "wall_s": round(time.time() - ctx.t0, 1),
         "violations": len(reported),
     }
-    os.makedirs(os.path.join(VERIF, "evidence"), exist_ok=True)
-    json.dump(ev, open(os.path.join(VERIF, "evidence", prop + ".json"), "w"), indent=1)
+    # selftests (seeded changes, mutants, benign refactors in a scratch tree) keep their evidence apart
+    evdir = os.path.join(VERIF, "evidence") if REPO == "/repo" else os.path.join(VERIF, ".work", "evidence-scratch")
+    os.makedirs(evdir, exist_ok=True)
+    json.dump(ev, open(os.path.join(evdir, prop + ".json"), "w"), indent=1)
     for key, k in sorted(known_hits.items()):
         print("KNOWN-FINDING: property=%s %s" % (prop, k.get("what", key)))
     for p in reported:
